@@ -352,6 +352,7 @@ pub fn run(ctx: &mut Ctx) -> Result<(), Violation> {
     ctx.stage("random-histories-dropping-old-handles", false, r)?;
     let wc = ctx.tier.cases(2_000, 80_000);
     crate::wide::stage_history(ctx, "wide-histories-of-near-copies", wc)?;
+    crate::wide::fuzz_kind(ctx, "history", replay)?;
 
     if ctx.tier == Tier::Thorough {
         let r = par_random(ctx, "long-histories", 3_000, 3000, |tape, st| {
